@@ -313,28 +313,33 @@ func (s *seqSt) earnValue(ctx sdk.Context, denom string, a sdk.AccAddress) *big.
 }
 
 func (s *seqSt) observe(ctx sdk.Context, v int, u sdk.AccAddress) slice {
+	return s.observeAt(ctx, s.vals[v], u)
+}
+
+// observeAt: the slice stored under any validator address (also one that is not ours, or that does not exist)
+func (s *seqSt) observeAt(ctx sdk.Context, va sdk.ValAddress, u sdk.AccAddress) slice {
 	sk, bk := s.sk(), s.w.tApp.GetBankKeeper()
 	var o slice
 	o.tokens, o.shares, o.minSelf = bi(0), bi(0), bi(0)
-	if val, ok := sk.GetValidator(ctx, s.vals[v]); ok {
+	if val, ok := sk.GetValidator(ctx, va); ok {
 		o.found = true
 		o.tokens, o.shares, o.status = val.Tokens.BigInt(), val.DelegatorShares.BigInt(), statusNo(val.Status)
 		o.minSelf, o.jailed = val.MinSelfDelegation.BigInt(), val.Jailed
 	}
-	o.isOper = u.Equals(s.vals[v])
-	if d, ok := sk.GetDelegation(ctx, u, s.vals[v]); ok {
+	o.isOper = u.Equals(va)
+	if d, ok := sk.GetDelegation(ctx, u, va); ok {
 		o.delU = d.Shares.BigInt()
 	}
-	if d, ok := sk.GetDelegation(ctx, s.module, s.vals[v]); ok {
+	if d, ok := sk.GetDelegation(ctx, s.module, va); ok {
 		o.delM = d.Shares.BigInt()
 	}
-	o.redelU = sk.HasReceivingRedelegation(ctx, u, s.vals[v])
-	o.redelM = sk.HasReceivingRedelegation(ctx, s.module, s.vals[v])
-	o.ubdU, o.ubdM = s.ubdBalance(ctx, u, s.vals[v]), s.ubdBalance(ctx, s.module, s.vals[v])
+	o.redelU = sk.HasReceivingRedelegation(ctx, u, va)
+	o.redelM = sk.HasReceivingRedelegation(ctx, s.module, va)
+	o.ubdU, o.ubdM = s.ubdBalance(ctx, u, va), s.ubdBalance(ctx, s.module, va)
 	for _, red := range sk.GetRedelegations(ctx, u, 1000) {
 		o.nRedU += len(red.Entries)
 	}
-	dn := s.denom(v)
+	dn := s.lk().GetLiquidStakingTokenDenom(va)
 	o.balU, o.balM = bk.GetBalance(ctx, u, dn).Amount.BigInt(), bk.GetBalance(ctx, s.module, dn).Amount.BigInt()
 	o.earnU = s.earnValue(ctx, dn, u)
 	o.supply = bk.GetSupply(ctx, dn).Amount.BigInt()
@@ -413,10 +418,19 @@ func (s *seqSt) emitXfer(kind string, v int, pre, post slice, denomOk bool, amou
 	f = append(f, c.B(denomOk), amount.String(), c.B(aux), "=>", string(cls))
 	f = append(f, post.post()...)
 	s.out.Case(sig, "c12.xfer", f...)
+	// the operation names ONE validator; backing / empty-delegation are properties of EVERY validator, so the
+	// whole table is observed after every operation that went through (a burn that names validator B but burns
+	// A's derivative shows up here on both A and B)
+	if cls == kapp.OK {
+		s.emitInv("op-" + kind)
+	}
 }
 
 // emitInv prints the backing / empty-delegation observation of all validators after a non-transfer event.
-func (s *seqSt) emitInv(why string) {
+func (s *seqSt) emitInv(why string) { s.out.Case("", "c12.inv", why, s.invLine()) }
+
+// invLine: per validator found:tokens:shares:module shares:derivative supply:number of zero-share delegations
+func (s *seqSt) invLine() string {
 	sk, bk := s.sk(), s.w.tApp.GetBankKeeper()
 	var parts []string
 	for v := range s.vals {
@@ -437,7 +451,7 @@ func (s *seqSt) emitInv(why string) {
 		}
 		parts = append(parts, fmt.Sprintf("%s:%s:%s:%s:%s:%d", c.B(ok), tok, sh, optS(dm), bk.GetSupply(s.ctx, s.denom(v)).Amount, zero))
 	}
-	s.out.Case("", "c12.inv", why, strings.Join(parts, ";"))
+	return strings.Join(parts, ";")
 }
 
 // ------------------------------------------------------------------ operations
@@ -550,7 +564,106 @@ func (s *seqSt) mintWith(d, v int, amt *big.Int, denomOk bool) {
 
 func (s *seqSt) opBurn(d, v int) {
 	pre := s.observe(s.ctx, v, s.users[d])
+	if s.r.Chance(22) {
+		s.opBurnCross(d, v, pre.balU)
+		return
+	}
 	s.burnWith(d, v, s.burnAmount(pre.balU))
+}
+
+// derivDenom: the derivative denom of a validator address, written out by the harness itself (not asked from the keeper)
+func derivDenom(va sdk.ValAddress) string { return liquidtypes.DefaultDerivativeDenom + "-" + va.String() }
+
+// opBurnCross: MsgBurnDerivative whose coin is NOT the derivative of the validator named in the message.
+// User d holds `bal` units of validator a's derivative.  Classes:
+//
+//	other-validator   coin bkava-<a>, validator field b != a (both ours; b preferably one the module delegates to)
+//	foreign-validator coin bkava-<a>, validator field = a validator of the store that is not ours (genesis validator)
+//	absent-validator  coin bkava-<a>, validator field = an address under which no validator is stored
+//	absent-denom      coin bkava-<x> for an address x under which no validator is stored, validator field ours
+//	bare-denom        coin "bkava" (no address part), validator field ours
+//	not-derivative    coin of the bond denom / usdx (held by every account), validator field ours
+//
+// Every one of them must be refused and change nothing.
+func (s *seqSt) opBurnCross(d, a int, bal *big.Int) {
+	r := s.r
+	u := s.users[d]
+	// the named validator: another one of ours, by preference one whose derivative other people hold
+	b := (a + 1 + r.Intn(len(s.vals)-1)) % len(s.vals)
+	if r.Chance(70) {
+		var cands []int
+		for v := range s.vals {
+			if del, ok := s.sk().GetDelegation(s.ctx, s.module, s.vals[v]); ok && v != a && del.Shares.IsPositive() {
+				cands = append(cands, v)
+			}
+		}
+		if len(cands) > 0 {
+			b = cands[r.Intn(len(cands))]
+		}
+	}
+	modB := bi(0)
+	if del, ok := s.sk().GetDelegation(s.ctx, s.module, s.vals[b]); ok {
+		modB = del.Shares.TruncateInt().BigInt()
+	}
+	// amounts: what the signer holds, what the module holds for the named validator, and the usual small ones
+	small := bal
+	if modB.Cmp(small) < 0 {
+		small = modB
+	}
+	amt := c.Pick(r, []*big.Int{bi(1), bi(r.Range(1, 3)), new(big.Int).Set(bal), new(big.Int).Set(small), new(big.Int).Set(modB),
+		new(big.Int).Div(small, bi(2)), r.BigBelow(new(big.Int).Add(small, bi(2)))})
+	if amt.Sign() <= 0 {
+		amt = bi(1)
+	}
+	named := s.vals[b]
+	coin := s.bkava(a, amt)
+	class := "other-validator"
+	switch x := r.Intn(100); {
+	case x < 58:
+	case x < 64:
+		for _, v := range s.sk().GetAllValidators(s.ctx) {
+			ours := false
+			for _, va := range s.vals {
+				ours = ours || va.Equals(v.GetOperator())
+			}
+			if !ours {
+				class, named = "foreign-validator", v.GetOperator()
+			}
+		}
+	case x < 72:
+		class, named = "absent-validator", sdk.ValAddress(addrFrom(r))
+	case x < 80:
+		class = "absent-denom"
+		coin = sdk.NewCoin(derivDenom(sdk.ValAddress(addrFrom(r))), coin.Amount)
+	case x < 86:
+		class = "bare-denom"
+		coin = sdk.NewCoin(liquidtypes.DefaultDerivativeDenom, coin.Amount)
+	default:
+		class = "not-derivative"
+		coin = sdk.NewCoin(c.Pick(r, []string{"ukava", "ukava", "usdx"}), coin.Amount)
+	}
+	s.burnCoinAt(u, named, coin, class)
+}
+
+// burnCoinAt sends MsgBurnDerivative{sender u, validator named, amount coin} and prints the slice stored under the
+// NAMED validator before / after (kind "burn"; denomOk = the coin is the named validator's derivative)
+func (s *seqSt) burnCoinAt(u sdk.AccAddress, named sdk.ValAddress, coin sdk.Coin, class string) {
+	pre := s.observeAt(s.ctx, named, u)
+	all0 := s.invLine()
+	msg := liquidtypes.NewMsgBurnDerivative(u, named, coin)
+	srv := liquidkeeper.NewMsgServerImpl(s.lk())
+	cls, err := kapp.Exec(s.ctx, func(cx sdk.Context) error {
+		if e := msg.ValidateBasic(); e != nil {
+			return e
+		}
+		_, e := srv.BurnDerivative(sdk.WrapSDKContext(cx), &msg)
+		return e
+	})
+	denomOk := coin.Denom == derivDenom(named)
+	s.out.Note("burn-cross:" + class + ":" + string(cls))
+	s.emitXfer("burn", -1, pre, s.observeAt(s.ctx, named, u), denomOk, coin.Amount.BigInt(), false, cls, err)
+	// "fails and changes nothing" on every validator: the table before and after, whatever the result
+	s.out.Case("burn-cross|"+class+"|"+string(cls), "c12.cross", class, c.B(denomOk), string(cls), all0, s.invLine())
 }
 
 // burnWith sends MsgBurnDerivative of `amt` units and prints the slice before / after
